@@ -58,7 +58,7 @@ def ENCODED():
 def cases(tier, seed):
     out = [f"data/{k}/{e}" for k in ("daily", "hourly") for e in ("elec", "gas")] + ["predict/frame", "predict/history", "predict/billing-agg"]
     out += [f"gate/{f}" for f in ("daily", "billing", "hourly")] + ["gate/hourly-predict"]
-    out += [f"series/{fam}/{role}" for fam in ("daily", "billing") for role in ("baseline", "reporting")] + ["accessor/billing_df", "hourly-data/ctor", "interleave/daily", "interleave/billing", "refit/daily", "refit/billing", "hourly-model/state"]
+    out += [f"series/{fam}/{role}" for fam in ("daily", "billing") for role in ("baseline", "reporting")] + ["accessor/billing_df", "hourly-data/ctor", "interleave/daily", "interleave/billing", "refit/daily", "refit/billing", "hourly-model/state", "caltrack/state"]
     return out
 
 
@@ -514,6 +514,68 @@ def run_refit(case, fam):
     case.sample(dict(family=fam, histories=len(paths)))
 
 
+def caltrack_state_scenario(first, first_usage, second, second_usage, ctor_usage, elec):
+    """CalTRACK hourly family: predict() leaves the model's stored form alone, a prediction does not depend on what was
+    predicted before with the same object, predict() leaves the data object's frame alone, and the data classes leave the
+    caller's frame alone"""
+    import logging
+    logging.disable(logging.CRITICAL)
+    from . import caltrackref as CT
+    pr = []
+    m = CT.model()
+    doc0 = m.to_json()
+    a = CT.reporting(first, first_usage)
+    fa = a.df.copy(deep=True)
+    m.predict(a)
+    if not a.df.equals(fa) or list(a.df.columns) != list(fa.columns):
+        pr.append("predict changed the reporting data object's frame")
+    if m.to_json() != doc0:
+        pr.append(f"the model serialises differently after predicting {first}")
+    got = m.predict(CT.reporting(second, second_usage))
+    want = CT.model().predict(CT.reporting(second, second_usage))
+    for col in ("predicted", "predicted_uncertainty"):
+        if list(got.index) != list(want.index) or not CT.same(got[col], want[col]):
+            pr.append(f"{col} for {second} depends on having predicted {first} before")
+    if m.to_json() != doc0:
+        pr.append("the model serialises differently after two predictions")
+    # data classes: the caller's frame
+    for cls in (CT.HourlyReportingData, CT.HourlyBaselineData):
+        if cls is CT.HourlyBaselineData and ctor_usage == "absent":
+            continue
+        df = CT.frame("june", ctor_usage)
+        before, cols = df.copy(deep=True), list(df.columns)
+        cls(df, is_electricity_data=elec)
+        if list(df.columns) != cols or not df.equals(before):
+            pr.append(f"{cls.__name__}(frame with usage '{ctor_usage}', electricity={elec}) changed the caller's frame (columns {cols} -> {list(df.columns)})")
+    return pr
+
+
+def replay_caltrack_state(inp):
+    pr = caltrack_state_scenario(inp["first"], inp["first_usage"], inp["second"], inp["second_usage"], inp["ctor_usage"], inp["elec"])
+    return bool(pr), "; ".join(pr[:3])
+
+
+def run_caltrack_state(case):
+    from . import caltrackref as CT
+    case.inputs = []
+
+    def run():
+        cfg = dict(first=F.choose("first", list(CT.SPANS)), first_usage=F.choose("first_usage", ["present", "absent"]), second=F.choose("second", list(CT.SPANS)[:2]),
+                   second_usage=F.choose("second_usage", ["present", "absent"]), ctor_usage=F.choose("ctor_usage", ["absent", "with-zeros", "present"]), elec=F.choose("elec", [True, False]))
+        return cfg, caltrack_state_scenario(**cfg)
+
+    paths = case.explore(run)
+    for p in paths:
+        if p.outcome != "ret":
+            case.rep["harness_errors"].append(f"CalTRACK state scenario raised {p.value!r}")
+            continue
+        cfg, pr = p.value
+        case.prove(p, not pr, "CalTRACK hourly: predict leaves model and data object alone, no dependence on earlier predictions, data classes leave the caller's frame alone",
+                   replay=("caltrack-state", (lambda c: lambda mdl: dict(c))(cfg)))
+        case.regime("CalTRACK data class handed a frame without usage / with zero readings", cfg["ctor_usage"] in ("absent", "with-zeros"))
+    case.sample(dict(family="CalTRACK hourly", histories=len(paths)))
+
+
 def replay_interleave(inp):
     pr = interleave_scenario(inp["fam"], inp["poor_a"], inp["poor_b"], inp["predict_between"])
     return bool(pr), "; ".join(pr)
@@ -798,7 +860,7 @@ def run_hourly_predict(case):
     case.sample(dict(scenario="HourlyModel.fit then predict on GHI-carrying reporting data"))
 
 
-REPLAY = {"data": replay_data, "predict": replay_predict, "gate": replay_gate, "hp": replay_hp, "series": replay_series, "accessor": replay_accessor, "hourly-data": replay_hourly_data, "interleave": replay_interleave, "refit": replay_refit, "hourly-state": replay_hourly_state}
+REPLAY = {"data": replay_data, "predict": replay_predict, "gate": replay_gate, "hp": replay_hp, "series": replay_series, "accessor": replay_accessor, "hourly-data": replay_hourly_data, "interleave": replay_interleave, "refit": replay_refit, "caltrack-state": replay_caltrack_state, "hourly-state": replay_hourly_state}
 
 
 def run_case(case: Case, name: str):
@@ -813,6 +875,8 @@ def run_case(case: Case, name: str):
         return run_hourly_data(case)
     if parts[0] == "refit":
         return run_refit(case, parts[1])
+    if parts[0] == "caltrack":
+        return run_caltrack_state(case)
     if parts[0] == "interleave":
         return run_interleave(case, parts[1])
     if parts[0] == "hourly-model":
